@@ -19,6 +19,9 @@ pub enum Chunking {
     Fixed(usize),
     /// every read returns 1..=k bytes, k drawn per call from the seeded stream
     Seeded(u64, usize),
+    /// every read returns all it was offered except the last k bytes (at least one byte): "the read
+    /// that leaves exactly one byte free"
+    Short(usize),
 }
 
 impl Chunking {
@@ -28,6 +31,7 @@ impl Chunking {
             Chunking::OneByte => "onebyte",
             Chunking::Fixed(_) => "fixed",
             Chunking::Seeded(..) => "seeded",
+            Chunking::Short(_) => "short",
         }
     }
     pub fn describe(&self) -> String {
@@ -257,6 +261,7 @@ impl Read for Src {
             Chunking::OneByte => 1,
             Chunking::Fixed(k) => k.max(1),
             Chunking::Seeded(_, maxk) => 1 + self.chunk_rng.below(maxk.max(1)),
+            Chunking::Short(k) => buf.len().saturating_sub(k).max(1),
         };
         let n = k.min(left).min(buf.len());
         let p = log.pos;
@@ -270,10 +275,20 @@ impl Read for Src {
     }
 }
 
+thread_local! {
+    /// sources of this thread accept only `SeekFrom::Start` (a range-request reader, an index-based
+    /// archive): legal, and what the readers need today
+    pub static ABSOLUTE_SEEKS_ONLY: std::cell::Cell<bool> = std::cell::Cell::new(false);
+}
+pub const ABSOLUTE_ONLY_MSG: &str = "verif-source: only absolute seeks are supported";
+
 impl Seek for Src {
     fn seek(&mut self, to: SeekFrom) -> io::Result<u64> {
         let mut log = self.log.borrow_mut();
         log.seek_calls += 1;
+        if ABSOLUTE_SEEKS_ONLY.with(|a| a.get()) && !matches!(to, SeekFrom::Start(_)) {
+            return Err(io::Error::new(io::ErrorKind::Unsupported, ABSOLUTE_ONLY_MSG));
+        }
         let n_call = log.seek_calls;
         if let Some(f) = self
             .faults
